@@ -191,14 +191,24 @@ func mapReduceWithPanicChan(source <-chan any, panicChan *onceChan, mapper Mappe
 	collector := make(chan any, options.workers)
 	// done 通道一旦关闭，所有加工者和聚合者都应停止工作
 	done := make(chan lang.PlaceholderType)
-	writer := newGuardedWriter(options.ctx, output, done)
+	// 取消（或上下文结束）可能与聚合者的 Write 并发：output 的发送与关闭必须互斥
+	var outputLock sync.Mutex
+	writer := outputWriter{
+		ctx:     options.ctx,
+		channel: output,
+		done:    done,
+		lock:    &outputLock,
+	}
 	var closeOnce sync.Once
 	// 使用 atomic.Value 以避免数据竞争
 	var retErr errorx.AtomicError
 	finish := func() {
 		closeOnce.Do(func() {
+			// 先关闭 done 以唤醒阻塞中的 Write，再在锁内关闭 output
 			close(done)
+			outputLock.Lock()
 			close(output)
+			outputLock.Unlock()
 		})
 	}
 	cancel := once(func(err error) {
@@ -397,5 +407,34 @@ func (w guardedWriter) Write(v any) {
 		return
 	default:
 		w.channel <- v
+	}
+}
+
+// outputWriter 是聚合者写入最终结果所用的 Writer。
+// 与 guardedWriter 不同，output 可能在聚合者仍在 Write 时被 cancel 关闭，
+// 因此发送在锁内进行，且阻塞中的发送可被 done / ctx 唤醒，不会向已关闭的通道发送。
+type outputWriter struct {
+	ctx     context.Context
+	channel chan<- any
+	done    <-chan lang.PlaceholderType
+	lock    *sync.Mutex
+}
+
+func (w outputWriter) Write(v any) {
+	w.lock.Lock()
+	defer w.lock.Unlock()
+
+	select {
+	case <-w.ctx.Done():
+		return
+	case <-w.done:
+		return
+	default:
+	}
+
+	select {
+	case <-w.ctx.Done():
+	case <-w.done:
+	case w.channel <- v:
 	}
 }
